@@ -61,6 +61,11 @@ def params_to_coq(p):
         cpairs(p['prefix_limits']), cgr(p['gr']), cllgr(p['llgr']))
 
 def op_to_val(o):
+    if o[0] == 'update':
+        u = o[2]
+        return [7, addr_to_val(o[1]), [u['asn'], u['local_asn'], u['hold'], int(u['passive']), int(u['rs']), int(u['rrc']), opt(u['cluster'])]]
+    if o[0] == 'discrace':
+        return [8, addr_to_val(o[1]), int(o[2]), int(o[3])]
     return [{'connect': 0, 'disconnect': 1, 'admin': 2, 'disable': 3, 'enable': 4, 'delete': 5, 'delrace': 6}[o[0]], addr_to_val(o[1]), int(o[2])]
 
 def op_to_coq(o):
@@ -70,6 +75,11 @@ def op_to_coq(o):
     if o[0] == 'enable': return '(OEnable %s)' % caddr(o[1])
     if o[0] == 'delete': return '(ODelete %s)' % caddr(o[1])
     if o[0] == 'delrace': return '(ODeleteReconnect %s %s)' % (caddr(o[1]), crole(o[2]))
+    if o[0] == 'discrace': return '(ODisconnectRace %s %s %s)' % (caddr(o[1]), crole(o[2]), crole(o[3]))
+    if o[0] == 'update':
+        u = o[2]
+        return '(OUpdate %s (Build_upd %s %s %s %s %s %s %s))' % (caddr(o[1]), cN(u['asn']), cN(u['local_asn']), cN(u['hold']),
+                                                                 cbool(u['passive']), cbool(u['rs']), cbool(u['rrc']), copt(u['cluster']))
     return '(OAdmin %s %s)' % (caddr(o[1]), cbool(o[2]))
 
 def acc_to_val(c):
@@ -113,7 +123,7 @@ class Prop:
     pid = 'C16'
     props_file = 'Props/C16.v'
     extra_targets = ['Model/OpenSession.vo']   # composition used by the wire_* cases, not a dependency of Props/C16.v
-    required_theorems = ['negotiate_mirror', 'family_in_force_iff_both', 'flags_in_force_iff_both', 'graceful_restart_mirror', 'send_max_iff_addpath_tx', 'llgr_mirror', 'contains_eq_bit_prefix', 'contains_beyond_width', 'send_max_any_filter_refuted', 'llgr_all_entries_refuted', 'accept_iff_permitted', 'accept_only_if_text', 'session_fields_from_config', 'dynamic_peer_removed', 'dynamic_peers_have_connections', 'peer_group_inheritance', 'local_cap_from_config', 'admission_independent_of_group_order', 'overlapping_groups_order_dependent', 'stale_task_removes_live_dynamic_peer_refuted']
+    required_theorems = ['negotiate_mirror', 'family_in_force_iff_both', 'flags_in_force_iff_both', 'graceful_restart_mirror', 'send_max_iff_addpath_tx', 'llgr_mirror', 'contains_eq_bit_prefix', 'contains_beyond_width', 'send_max_any_filter_refuted', 'llgr_all_entries_refuted', 'accept_iff_permitted', 'accept_only_if_text', 'session_fields_from_config', 'dynamic_peer_removed', 'dynamic_peers_have_connections', 'peer_group_inheritance', 'local_cap_from_config', 'admission_independent_of_group_order', 'overlapping_groups_order_dependent', 'stale_task_removes_live_dynamic_peer_refuted', 'update_keeps_dynamic', 'live_connection_keeps_record', 'stale_no_sessions_refuted', 'update_clearing_delete_refuted', 'update_local_asn_as_configured']
     correspondence_name = ('Model/Negotiate.v vs packet/src/bgp.rs IpNet::contains, PeerCodec::negotiate (harness/hx-neg) and '
                            'daemon fsm.rs effective send-max, event/mod.rs negotiate_gr/negotiate_llgr (harness/daemon/event_hx.rs verif_neg_cases); '
                            'Model/Accept.v vs event/mod.rs accept_connection, Global::add_peer, PeerSession::run bookkeeping and event/peer.rs '
@@ -276,7 +286,11 @@ class Prop:
             elif x < 0.89: ops.append(('admin', a, rng.random() < 0.6))
             elif x < 0.94: ops.append(('disable', a, 0))
             elif x < 0.97: ops.append(('enable', a, 0))
+            elif x < 0.975: ops.append(('update', a, dict(asn=rng.choice([65001, 65000, 65009]), local_asn=rng.choice([0, 0, 64999]),
+                                                          hold=rng.choice([0, 0, 30]), passive=rng.random() < 0.7, rs=rng.random() < 0.2,
+                                                          rrc=rng.random() < 0.2, cluster=rng.choice([None, 0x0a000001]))))
             elif x < 0.985 or a[0] == 6: ops.append(('delete', a, 0))
+            elif x < 0.993: ops.append(('discrace', a, rng.choice([0, 1]), rng.choice([0, 1])))
             else: ops.append(('delrace', a, rng.choice([0, 1])))
         return dict(kind='acc', asn=65000, rid=0x01000001, confed=confed, restarting=rng.random() < 0.15,
                     groups=groups, statics=statics, ops=[list(o) for o in ops])
@@ -415,6 +429,39 @@ class Prop:
         case('dynamic_lifecycle', g, [], [('connect', a1, 1), ('delete', a1, 0), ('connect', a1, 1)])
         case('dynamic_lifecycle', g, [dict(addr=a1, params=P(), group=None)], [('connect', a1, 1), ('delrace', a1, 1), ('disconnect', a1, 1)])
         case('dynamic_lifecycle', g, [dict(addr=a1, params=P(), group=None)], [('connect', a1, 0), ('connect', a1, 1), ('delrace', a1, 0), ('connect', a1, 0)])
+        # UpdatePeer / DisablePeer / EnablePeer / DeletePeer on dynamic and configured neighbours in every session state,
+        # then the remaining connections end one by one (a dynamic neighbour must go with the last one, a configured one stay)
+        same = dict(asn=65001, local_asn=0, hold=0, passive=True, rs=False, rrc=False, cluster=None)
+        upds = {'update_same': same, 'update_hold': dict(same, hold=30), 'update_asn': dict(same, asn=65009),
+                'update_local_asn': dict(same, local_asn=64999), 'update_passive': dict(same, passive=False),
+                'update_cluster': dict(same, cluster=0x0a000001), 'update_rs_mismatch': dict(same, rs=True),
+                'update_rr_mismatch': dict(same, rrc=True)}
+        states = {'idle': [], 'active': [('connect', a1, 0)], 'passive': [('connect', a1, 1)],
+                  'both': [('connect', a1, 0), ('connect', a1, 1)]}
+        tail = [('connect', a1, 1), ('connect', a1, 0), ('disconnect', a1, 1), ('disconnect', a1, 0), ('connect', a1, 1)]
+        for nkind in ('dynamic', 'static'):
+            groups = [G(prefixes=[(4, [127, 0, 0, 0], 16)])] if nkind == 'dynamic' else []
+            statics = [] if nkind == 'dynamic' else [dict(addr=a1, params=P(), group=None)]
+            for sname, pre in states.items():
+                for uname, u in upds.items():
+                    case('%s_%s_%s' % (uname, nkind, sname), groups, statics, pre + [('update', a1, u)] + tail)
+                case('disable_%s_%s' % (nkind, sname), groups, statics, pre + [('disable', a1, 0)] + tail + [('enable', a1, 0)] + tail)
+                case('enable_%s_%s' % (nkind, sname), groups, statics, pre + [('enable', a1, 0)] + tail)
+                case('disable_enable_%s_%s' % (nkind, sname), groups, statics, pre + [('disable', a1, 0), ('enable', a1, 0)] + tail)
+                case('delete_%s_%s' % (nkind, sname), groups, statics, pre + [('delete', a1, 0)] + tail)
+                # a connection ends while another one of the same neighbour is being admitted
+                for old in (0, 1):
+                    for new in (0, 1):
+                        case('disconnect_race_%s_%s' % (nkind, sname), groups, statics,
+                             pre + [('discrace', a1, old, new), ('disconnect', a1, new), ('disconnect', a1, 1 - new), ('connect', a1, 1)])
+        # UpdatePeer under a confederation: external, member and internal neighbours
+        for peer_as in (65001, 65009, 65000):
+            for nkind in ('dynamic', 'static'):
+                groups = [G(**{'as': peer_as, 'prefixes': [(4, [127, 0, 0, 0], 16)]})] if nkind == 'dynamic' else []
+                statics = [] if nkind == 'dynamic' else [dict(addr=a1, params=P(expected=peer_as), group=None)]
+                case('update_confederation_%s' % nkind, groups, statics,
+                     [('connect', a1, 1), ('update', a1, dict(same, asn=peer_as)), ('connect', a1, 1), ('disconnect', a1, 1)],
+                     confed=[65100, [65001, 65002]])
         # overlapping dynamic prefixes in two / three groups
         for hs in ((30, 90), (90, 30), (30, 90, 3)):
             case('overlapping_groups', [G(hold=h, prefixes=[(4, [127, 0, 0, 0], 8 + 4 * k)]) for k, h in enumerate(hs)], [], [('connect', a1, 1)])
@@ -760,12 +807,69 @@ class Prop:
             if rows[key]['admin'] != int(q['admin_down']): return 'admin-down flag'
         dyn = {}
         for k, (o, (res, rws)) in enumerate(zip(c['ops'], obs[1:])):
-            kind, addr, arg = o
+            kind, addr, arg = o[0], o[1], o[2]
             key = json.dumps(addr)
             after = {json.dumps(self._row_dict(r)['addr']): self._row_dict(r) for r in rws}
             before = rows
             flag = 'ca' if arg == 0 else 'cp'
             exp = {kk: dict(v) for kk, v in before.items()}
+            if kind == 'discrace':
+                # the connection (addr, old direction) ends and a new one is admitted before the old task has finished:
+                # by the text this is a disconnect that is not the last one if the new connection is admitted
+                oflag = 'ca' if arg == 0 else 'cp'
+                nrole = o[3]
+                row = before.get(key)
+                if row is None or not row[oflag]:
+                    if exp != after: return 'op %d (discrace without a connection): table changed' % k
+                    rows = after; continue
+                b2 = {kk: dict(v) for kk, v in before.items()}; b2[key][oflag] = 0
+                nflag = 'ca' if nrole == 0 else 'cp'
+                permitted = not b2[key]['admin'] and not b2[key][nflag]
+                if bool(res) != permitted:
+                    return 'op %d: connection from %s %s although it is %s' % (k, addr[1], 'accepted' if res else 'dropped', 'permitted' if permitted else 'not permitted')
+                exp = b2
+                if permitted:
+                    exp[key][nflag] = 1
+                    got = after.get(key)
+                    if got is None or not got[nflag]:
+                        return 'op %d: the neighbour record of a live connection was removed or lost its connection mark when an earlier connection of the same neighbour ended' % k
+                    want = dyn[key] if key in dyn else want_static.get(key, (None, None))[0]
+                    m = self._session_mismatch(c, nrole, got, want, res[0])
+                    if m: return 'op %d: session for %s: %s' % (k, addr[1], m)
+                else:
+                    if exp[key]['delete'] and not exp[key]['ca'] and not exp[key]['cp']: del exp[key]
+                kind = 'done'
+            if kind == 'update':
+                u = arg
+                row = before.get(key)
+                if row is not None and int(u['rs']) == row['rs'] and int(u['rrc']) == row['rrc']:
+                    # the local AS the peer must see: as for a neighbour configured this way (confederation identifier
+                    # towards peers outside the confederation)
+                    own = u['local_asn'] or c['asn']
+                    la = own
+                    if c['confed'] is not None and u['asn'] != own and u['asn'] not in c['confed'][1]:
+                        la = c['confed'][0]
+                    hold = u['hold'] or 180
+                    caps = self._expected_caps(addr, la, [], None, None)
+                    new = dict(row); new.update(expected=u['asn'], local_asn=la, passive=int(u['passive']), hold=hold, caps=caps,
+                                                cluster=opt(u['cluster']), limits=[])
+                    # the update names no dynamic / static distinction: a dynamic neighbour stays one
+                    changed = any(new[f] != row[f] for f in ('expected', 'local_asn', 'passive', 'hold', 'caps'))
+                    if changed:
+                        # the sessions run with the old settings: they are torn down, so the last one has ended
+                        had = row['ca'] or row['cp']
+                        new.update(ca=0, cp=0, smax=[])
+                        if had and row['delete']: new = None
+                    if new is None: exp.pop(key, None)
+                    else: exp[key] = new
+                    if key in want_static:
+                        w, q = want_static[key]
+                        w = dict(w); w.update({f: (new or row)[f] for f in ('expected', 'local_asn', 'passive', 'hold', 'caps', 'cluster', 'limits')})
+                        w['multihop'] = None; w['ttlsec'] = None
+                        want_static[key] = (w, q)
+                    if key in dyn:
+                        w = dict(dyn[key]); w.update(multihop=None, ttlsec=None); dyn[key] = w
+                kind = 'done'
             if kind == 'delrace':
                 # delete_peer, then a connection from the same address while the old tasks end
                 before = {kk: v for kk, v in before.items() if kk != key}
@@ -825,7 +929,7 @@ class Prop:
             if key not in exp: dyn.pop(key, None)
             if exp != after:
                 diff = sorted(set(exp) ^ set(after)) or [kk for kk in exp if exp[kk] != after[kk]]
-                return 'op %d (%s): neighbour table is not what the operation should leave (%s)' % (k, kind, diff[:2])
+                return 'op %d (%s): neighbour table is not what the operation should leave (%s)' % (k, o[0], diff[:2])
             rows = after
         return None
 
